@@ -204,6 +204,13 @@ pub fn sched_child_main() {
 static ENTRY_MIX: std::sync::atomic::AtomicBool = std::sync::atomic::AtomicBool::new(false);
 static TICKING: std::sync::atomic::AtomicBool = std::sync::atomic::AtomicBool::new(false);
 
+/// the C caller's view of bp7::ffi::Buffer (cbindgen header: `struct Buffer { uint8_t *data; uint32_t len; }`)
+#[repr(C)]
+struct CBuf {
+    data: *mut u8,
+    len: u32,
+}
+
 /// One call that generates a fresh creation timestamp, through the entry point number `k`.
 fn fresh_timestamp(k: usize) -> bp7::CreationTimestamp {
     use bp7::EndpointID;
@@ -212,8 +219,23 @@ fn fresh_timestamp(k: usize) -> bp7::CreationTimestamp {
     }
     let src = EndpointID::with_dtn("//src/app").expect("eid");
     let dst = EndpointID::with_dtn("//dst/app").expect("eid");
-    match k % 3 {
+    // (helper_rnd_bundle is not in the rotation: it draws two timestamps per call - new_std_payload_bundle inside rnd_bundle draws one
+    // that is then overwritten - so it is not ONE call of the generator)
+    match k % 4 {
         0 => bp7::CreationTimestamp::now(),
+        3 => {
+            // the C interface: bundle_new_default(src, dst, lifetime, payload buffer)
+            let s = std::ffi::CString::new("dtn://src/app").expect("cstring");
+            let t = std::ffi::CString::new("dtn://dst/app").expect("cstring");
+            let mut data = vec![1u8, 2, 3];
+            let mut buf = CBuf { data: data.as_mut_ptr(), len: data.len() as u32 };
+            unsafe {
+                let b = bp7::ffi::bundle_new_default(s.as_ptr(), t.as_ptr(), 3600000, &mut buf as *mut CBuf as *mut bp7::ffi::Buffer);
+                let ts = (*b).primary.creation_timestamp.clone();
+                bp7::ffi::bundle_free(b);
+                ts
+            }
+        }
         1 => bp7::bundle::new_std_payload_bundle(src, dst, b"x".to_vec()).primary.creation_timestamp,
         _ => {
             // a subject bundle that does not request status times: the report bundle's own creation timestamp is the only fresh one
